@@ -15,12 +15,33 @@ import (
 )
 
 const (
-	c15Up = iota
-	c15Slow
-	c15Dead
+	c15Up    = iota
+	c15Slow  // reads hang past the deadline (remoteDBQueryTimeout = 0), writes work
+	c15Dead  // closed pool, deadline 0
+	c15PrepW // fail-fast outages through the wrapping driver, non-zero deadline; W: writes still work
+	c15QueryW
+	c15ScanW
+	c15PrepX // X: every other statement fails too
+	c15QueryX
+	c15ScanX
+	c15NModes
 )
 
-var c15ModeNames = []string{"Up", "Slow", "Dead"}
+// the model's name of each mode (Model/Storage.v: Up | Out kind writes; Slow, Dead are notations)
+var c15ModeNames = []string{"Up", "Slow", "Dead", "(Out RPrepare true)", "(Out RQuery true)", "(Out RScan true)",
+	"(Out RPrepare false)", "(Out RQuery false)", "(Out RScan false)"}
+
+// stable names for oracle keys: how the primary fails its reads
+var c15ModeKinds = []string{"up", "hang", "closed-pool", "fail-at-prepare", "fail-at-query", "fail-at-scan",
+	"fail-at-prepare+no-writes", "fail-at-query+no-writes", "fail-at-scan+no-writes"}
+
+var c15ModeStage = []string{"", "", "", "prepare", "query", "scan", "prepare", "query", "scan"}
+
+func c15Writable(m int) bool { return m == c15Up || m == c15Slow || (m >= c15PrepW && m <= c15ScanW) }
+
+// deadline of primary reads in the fail-fast modes: long enough for a reported error to arrive
+// first, short enough to be waited for on every read
+const c15FailFastTimeout = 20 * time.Millisecond
 
 // ---------------------------------------------------------------- the two stores
 
@@ -115,6 +136,7 @@ func (e *c15Env) reopen() {
 
 func (e *c15Env) setMode(m int) {
 	e.settle()
+	verifOutage.clear()
 	switch m {
 	case c15Up:
 		e.reopen()
@@ -128,6 +150,11 @@ func (e *c15Env) setMode(m int) {
 			e.closed = true
 		}
 		e.st.remoteDBQueryTimeout = 0
+	default:
+		// the primary fails fast: every read of it fails at the chosen stage
+		e.reopen()
+		e.st.remoteDBQueryTimeout = c15FailFastTimeout
+		verifOutage.set(e.primFile, c15ModeStage[m], c15Writable(m))
 	}
 	e.mode = m
 }
@@ -256,4 +283,3 @@ func c15MirrorDiff(c, want c15Snap, prim c15Snap) string {
 	}
 	return ""
 }
-
